@@ -80,10 +80,10 @@ class Case:
     (short reads / writes through harness/preload_io.c)."""
 
     def __init__(self, label, args, data, env, expect_out=None, expect_fail=False, kind=None, timeout=30,
-                 mode="stdin", shim=None, outpipe=False):
+                 mode="stdin", shim=None, outpipe=False, outnull=False):
         self.label, self.args, self.data, self.env = label, args, data, env
         self.expect_out, self.expect_fail, self.kind, self.timeout = expect_out, expect_fail, kind, timeout
-        self.mode, self.shim, self.outpipe = mode, shim, outpipe
+        self.mode, self.shim, self.outpipe, self.outnull = mode, shim, outpipe, outnull
 
 
 import itertools
@@ -119,7 +119,8 @@ def run_cases(exe, cases, par=None):
             p = os.path.join(d, "i%d_%d" % (os.getpid(), n))
             with open(p, "wb") as f:
                 f.write(c.data)
-            t = campaign.traced_run(exe, c.args, c.label, stdin_file=p, env=env, timeout=c.timeout, kind=c.kind)
+            t = campaign.traced_run(exe, c.args, c.label, stdin_file=p, env=env, timeout=c.timeout, kind=c.kind,
+                                    stdout_file="/dev/null" if c.outnull else None)
             os.unlink(p)
         t.case = c
         return t
